@@ -241,6 +241,62 @@ Example C16_measure_example :
   /\ index_get [0;1;2;3;4;5]%nat [2;3]%Z (AInt 6%Z) = MErr 9.
 Proof. vm_compute. repeat split; reflexivity. Qed.
 
+(* ---- joint = marginal x conditional for the MODEL FUNCTIONS the translated code is proved equal to (cond_precheck / cond_fixed /
+        cond_sel / conditionalize), every shape of positive sizes, every argument lists (a variable may be listed twice) *)
+From QV.Proofs Require Import C16_CondModel.
+Theorem C16_cond_fixed_ok : forall sh idxs vals, cond_precheck sh idxs vals = None -> fixed_ok sh (cond_fixed sh idxs vals).
+Proof. exact cond_fixed_ok. Qed.
+Print Assumptions C16_cond_fixed_ok.
+
+Theorem C16_conditionalize_unfold : forall (F : OF) tol (d : dist F) idxs vals,
+  cond_precheck (d_shape F d) idxs vals = None ->
+  let fixed := cond_fixed (d_shape F d) idxs vals in
+  let newshape := select (cond_freemask fixed) (d_shape F d) in
+  let sel := cond_sel F (d_shape F d) (d_ps F d) fixed in
+  newshape <> [] -> lsum F sel <> c0 F ->
+  conditionalize F tol d idxs vals = construct F tol tol (map (fun p => kdiv F p (lsum F sel)) sel) (Some newshape).
+Proof. exact conditionalize_unfold. Qed.
+Print Assumptions C16_conditionalize_unfold.
+
+Theorem C16_conditionalize_joint : forall (F : OF) sh ps idxs vals, posn sh -> cond_precheck sh idxs vals = None ->
+  let fixed := cond_fixed sh idxs vals in
+  let newshape := select (cond_freemask fixed) sh in
+  let sel := cond_sel F sh ps fixed in
+  let marginal := nth (rowmajorn (select (map is_some fixed) sh) (somes fixed)) (marg_raw F sh ps (map is_some fixed)) (c0 F) in
+  lsum F sel = marginal /\
+  (lsum F sel <> c0 F -> forall k', (k' < prodn newshape)%nat ->
+     cmul F (nth k' (map (fun p => kdiv F p (lsum F sel)) sel) (c0 F)) marginal = nth (rowmajorn sh (fill fixed (digitsn newshape k'))) ps (c0 F)).
+Proof. exact conditionalize_joint. Qed.
+Print Assumptions C16_conditionalize_joint.
+
+(* non-vacuity: a 2 x 3 table conditioned on variable 1 = 2 (listed twice, the later value decides): checks pass, total = 1/8 + 1/4 <> 0,
+   the conditional is (1/3, 2/3) and conditional x marginal gives back the joint entries 1/8 and 1/4 *)
+Example C16_conditionalize_joint_example :
+  let e := Q2Qc (1 # 8) in let f := Q2Qc (1 # 4) in
+  let ps := [e; e; e; e; f; f]%list in
+  posn [2;3]%nat /\ cond_precheck [2;3]%nat [1;1]%Z [0;2]%Z = None /\
+  cond_sel Qc_OF [2;3]%nat ps (cond_fixed [2;3]%nat [1;1]%Z [0;2]%Z) = [e; f]%list /\
+  Qc_eq_bool (lsum Qc_OF (cond_sel Qc_OF [2;3]%nat ps (cond_fixed [2;3]%nat [1;1]%Z [0;2]%Z))) (Q2Qc (3 # 8)) = true.
+Proof. split; [repeat constructor|]. vm_compute. split; [reflexivity|]. split; reflexivity. Qed.
+
+(* ---- legacy ProbDist.__getitem__ (objects/prob_dist.py: successive indexing of the reshaped array), model probdist_get = the
+        translated code: same row-major entry as MultinomialDistribution.__getitem__ for every shape and in-range multi-index *)
+From QV.Proofs Require Import C16_ProbDist.
+From Coq Require Import String.
+Theorem C16_probdist_same_layout : forall (F : OF) sh idx ps, in_rangen sh idx -> List.length ps = prodn sh ->
+  exists v, probdist_get F (mk_pd F ps (Some (map Z.of_nat sh))) (ATuple (map Z.of_nat idx)) = PRet (nd_scalar F v) /\
+            index_get ps (map Z.of_nat sh) (ATuple (map Z.of_nat idx)) = MOk v /\ v = nth (rowmajorn sh idx) ps (c0 F).
+Proof. intros F sh idx ps Hr Hl. exists (nth (rowmajorn sh idx) ps (c0 F)).
+  split; [now apply probdist_get_in_range|]. split; [now apply index_get_tuple_in_range|reflexivity]. Qed.
+Print Assumptions C16_probdist_same_layout.
+
+Theorem C16_probdist_get_branches : forall (F : OF) (p : probdist F),
+  (pd_shape F p = None -> forall t, probdist_get F p (ATuple t) = PRaise "ValueError"%string) /\
+  probdist_get F p AOther = PRaise "TypeError"%string /\
+  (forall i, probdist_get F p (AInt i) = pbind (py_getitem (pd_ps F p) i) (fun x => PRet (nd_scalar F x))).
+Proof. exact probdist_get_branches. Qed.
+Print Assumptions C16_probdist_get_branches.
+
 (* non-vacuity over Qc: a 2x2 tensor with a sub-threshold entry is accepted, zeroed and renormalised *)
 Example C16_construct_example :
   let tol := Q2Qc (1 # 100000000) in
